@@ -287,6 +287,11 @@ def durSubMangler : Mangler :=
 
 def strPtrTy : Ty := .ptr (.basic .str false)
 
+/-- the reflect kinds with a `Type.Elem()` (pointer, slice, array, map; `.set` is a map) -/
+@[simp] def hasElemTy : Ty → Bool
+  | .ptr _ | .slice _ | .array _ _ | .map _ _ | .set _ => true
+  | _ => false
+
 /-- `parse` = parse.String(text, castTo) -/
 def stringCastMangler (parse : String → Ty → Outcome Val) : Mangler :=
   { mangle := fun h _ => .ok [(h, strPtrTy)],
@@ -297,6 +302,11 @@ def stringCastMangler (parse : String → Ty → Outcome Val) : Mangler :=
         match v with
         | .nilv => .ok .nilv
         | .ptr (.s str) =>
+          -- castTo is `sf.Type.Elem()` for everything but slices and maps: Type.Elem() panics for a type
+          -- without an element type (a scalar or struct that Pointerify did not wrap: the fields of a
+          -- struct behind `**T`); for an array it is the element type and the parsed pointer is rejected
+          -- downstream as not assignable (an error either way)
+          if !hasElemTy t then .panic "reflect: Elem of invalid type" else
           let castTo := match t with
             | .slice _ => t
             | .map _ _ => t
